@@ -187,7 +187,14 @@ where
 
         tokio::select! {
             biased;
-            res = &mut conn => res?,
+            res = &mut conn => {
+                res?;
+                // The connection has been terminated before the value was sent; its future must not be polled again.
+                return Err(ProvideError::Send(SendError::new(
+                    base::SendErrorKind::Send(crate::chmux::SendError::ChMux),
+                    (),
+                )));
+            },
             res = tx.send(value) => res?,
         }
 
